@@ -67,3 +67,18 @@ Lemma fix_total_unclosed_refuted :
   snd (name_fix_pass wit_unclosed_main [wit_unclosed_func] (fun _ => 0) (fun _ => 0)
          wit_unclosed_vn wit_unclosed_nn wit_unclosed_inits) = Some ValueError.
 Proof. vm_compute. reflexivity. Qed.
+
+(* (5) main graph and a function body share a value (the function reads the main graph's initializer): the run
+   over the main graph gives the duplicated initializer the fresh name x_1, which only the function's run would
+   have pre-scanned; the function's output, the only value named x_1 before the pass, is then renamed *)
+Definition wit_shared_main := Graph 0 false [0] [] [].
+Definition wit_shared_func := Graph 1 true [] [] [Node 0 [Some 1] [2] []].
+Definition wit_shared_vn := of_alist None [(0, Some s_x); (1, Some s_x); (2, Some s_x1)].
+Definition wit_shared_nn := of_alist None [(0, Some [110])].
+Definition wit_shared_inits : list (N * idict) := [(0, [(s_x, 1)])].
+
+Lemma fix_keeps_unique_shared_refuted :
+  let r := name_fix_pass wit_shared_main [wit_shared_func] (fun _ => 0) (fun _ => 0) wit_shared_vn wit_shared_nn wit_shared_inits in
+  snd r = None /\ wit_shared_vn 2 = Some s_x1 /\ (forall u, In u [0; 1] -> wit_shared_vn u <> Some s_x1) /\
+  f_vn (fst r) 2 <> Some s_x1.
+Proof. vm_compute. repeat split; try discriminate. intros u [<-|[<-|[]]]; discriminate. Qed.
